@@ -180,6 +180,10 @@ def einsum(subscripts, *operands):
         else:
             conv_operands.append(op)
 
+    if '->' not in subscripts:
+        in_subscripts = subscripts.replace(',', '')
+        subscripts += '->' + ''.join(sorted(s for s in set(in_subscripts) if in_subscripts.count(s) == 1))
+
     tmp_subscripts = ','.join([o + '...' for o in subscripts.split(',')])
     extended_subscripts = '->'.join([o + '...' for o in tmp_subscripts.split('->')[:-1]] + [tmp_subscripts.split('->')[-1]])
     einsum_path = np.einsum_path(extended_subscripts, *conv_operands, optimize='optimal')[0]
